@@ -634,7 +634,7 @@ class LazyTransfer(dict):
                 e.assume(prev <= g)  # kept sorted by bisect.insort
             prev = g
             # invariant: unmarked entries still belong to cluster key[0]
-            e.assume(sx.SymBool(z3.Or(sx.term(self.labels[j]) == key[0], sx.term(self.closed[j]) == 1)))
+            e.assume(sx.SymBool(z3.Or(sx.term(self.labels[j]) == key[0], _flag(self.closed[j]) == 1)))
             lst.append((g, j))
         self.materialised[key] = lst
         dict.__setitem__(self, key, lst)
@@ -656,10 +656,39 @@ class LazyTransfer(dict):
         self.materialised[key][:] = value
 
 
+def _flag(v):
+    """0/1 term of a marker entry, whether the code stores 1 or True in it"""
+    t = sx.term(v)
+    if z3.is_bool(t):
+        return z3.If(t, z3.IntVal(1), z3.IntVal(0))
+    return t
+
+
+def _gain_moved_marker(func):
+    """name of the array whose entry `[ind]` makes the loop of _constraint_association_gain skip a point"""
+    import ast
+
+    fd = slicer.function_ast(func)
+    for node in ast.walk(fd):
+        if isinstance(node, ast.For) and ast.unparse(node).startswith("for i in range(0, sorted_distances.shape[0])"):
+            for st in node.body:
+                if isinstance(st, ast.If) and len(st.body) == 1 and isinstance(st.body[0], ast.Continue):
+                    t = st.test
+                    if isinstance(t, ast.Subscript) and isinstance(t.value, ast.Name) and ast.unparse(t.slice) == "ind":
+                        return t.value.id
+    return "distances_close"
+
+
 def run_gain_step(cfg):
     m = loader.load("mlmodel._kmeans_constraint_")
     n, k = cfg["n"], cfg["k"]
-    step, target, lines = slicer.slice_loop_body(m._constraint_association_gain, "for i in range(0, sorted_distances.shape[0])", ["i", "sorted_distances", "labels", "distances_close", "counters", "ave", "leftclose", "transfer"])
+    # the array that marks a point as already moved is read off the source (the first `if <name>[ind]: continue`
+    # of the loop), so that a refactoring which gives the marker its own array is still encoded
+    marker = _gain_moved_marker(m._constraint_association_gain)
+    gparams = ["i", "sorted_distances", "labels", "distances_close", "counters", "ave", "leftclose", "transfer"]
+    if marker != "distances_close":
+        gparams.append(marker)
+    step, target, lines = slicer.slice_loop_body(m._constraint_association_gain, "for i in range(0, sorted_distances.shape[0])", gparams)
 
     def h(e):
         # labels are symbolic and realised only when the step looks at them (points are exchangeable:
@@ -679,7 +708,10 @@ def run_gain_step(cfg):
         gain = e.real("gain")
         row = sx.sarr([[0, ind, dest, gain]])
         transfer = LazyTransfer(e, labels, closed, n, cfg["maxlen"])
-        step(0, row, labels, closed, counters, ave, leftclose, transfer)
+        if marker != "distances_close":
+            step(0, row, labels, sx.sarr([0] * n), counters, ave, leftclose, transfer, closed)
+        else:
+            step(0, row, labels, closed, counters, ave, leftclose, transfer)
         for j in range(n):
             e.prove(sx.SymBool(z3.And(sx.term(labels[j]) >= 0, sx.term(labels[j]) < k)), "gain-step/labels-valid")
         for c in range(k):
@@ -687,11 +719,11 @@ def run_gain_step(cfg):
             e.prove(sx.SymBool(sx.term(counters[c]) == hist), "gain-step/counters-are-the-histogram-of-labels", detail=c)
         for j in range(n):
             # a point that changed cluster must be closed, or its entries in other waiting lists go stale unmarked
-            e.prove(sx.SymBool(z3.Implies(sx.term(labels[j]) != lab0[j].t, sx.term(closed[j]) == 1)), "gain-step/moved-point-is-closed", detail=j)
-            e.prove(sx.SymBool(z3.Implies(closed0[j].t == 1, sx.term(closed[j]) == 1)), "gain-step/closed-flags-are-monotone")
+            e.prove(sx.SymBool(z3.Implies(sx.term(labels[j]) != lab0[j].t, _flag(closed[j]) == 1)), "gain-step/moved-point-is-closed", detail=j)
+            e.prove(sx.SymBool(z3.Implies(closed0[j].t == 1, _flag(closed[j]) == 1)), "gain-step/closed-flags-are-monotone")
         for key, lst in transfer.materialised.items():
             for g, j in lst:
-                e.prove(sx.SymBool(z3.Or(sx.term(closed[j]) == 1, sx.term(labels[j]) == key[0])), "gain-step/waiting-list-invariant")
+                e.prove(sx.SymBool(z3.Or(_flag(closed[j]) == 1, sx.term(labels[j]) == key[0])), "gain-step/waiting-list-invariant")
 
     eng = sx.Engine(name=f"C07{cfg}", max_paths=400000)
     eng.stop_on_cex = False
